@@ -54,7 +54,7 @@ func (vout) IsTerminal() bool { return false }
 
 type vos struct {
 	args   []string
-	files  memFS
+	files  fs.FS
 	stdout *bytes.Buffer
 	stderr *bytes.Buffer
 }
@@ -75,6 +75,11 @@ func (o *vos) Readline(opts interp.ReadlineOpts) (string, error) { return "", io
 
 // runFq runs the real interpreter's Main with the given command line and returns stdout, stderr.
 func runFq(files memFS, args ...string) (stdout string, stderr string, err error) {
+	return runFqFS(files, args...)
+}
+
+// runFqFS: the same with any file system (real files for the file-backed sessions)
+func runFqFS(files fs.FS, args ...string) (stdout string, stderr string, err error) {
 	o := &vos{args: append([]string{"fq"}, args...), files: files, stdout: &bytes.Buffer{}, stderr: &bytes.Buffer{}}
 	defer func() {
 		if r := recover(); r != nil {
